@@ -62,6 +62,9 @@ def _solve(job):
     return r
 
 
+RETRY_TIMEOUT = 120
+
+
 def run_contract_obligations(keys, tier, nproc):
     timeout = 10 if tier == 'quick' else 60
     ctx = mp.get_context('fork')
@@ -76,8 +79,19 @@ def run_contract_obligations(keys, tier, nproc):
     t1 = time.time()
     with ctx.Pool(nproc) as pool:
         sols = pool.map(_solve, jobs, chunksize=1) if jobs else []
-    t_solve = time.time() - t1
     by_name = {s['name']: s for s in sols}
+    # obligations that were discharged on the unchanged tree (baseline) and are not now: one extended attempt before the
+    # verdict, so that a loaded machine cannot turn a slow proof into an alarm
+    from framework.report import load_baseline, base_name
+    base = load_baseline().get('discharged', {})
+    again = [(n, s2, RETRY_TIMEOUT) for (n, s2, _) in jobs
+             if by_name[n]['status'] not in ('unsat', 'sat') and base_name(n) in base]
+    if again:
+        with ctx.Pool(min(nproc, 8)) as pool:
+            for s in pool.map(_solve, again[:64], chunksize=1):
+                if s['status'] in ('unsat', 'sat'):
+                    by_name[s['name']] = s
+    t_solve = time.time() - t1
     return gens, by_name, t_gen, t_solve
 
 
